@@ -17,3 +17,24 @@ package checksumutils
 //@ effect[C04:crc32c-of-this-part] every CombineCrc32c($acc, $d, $n) needs before base64.StdEncoding.DecodeString($s) -> ($data, $e) where $e == nil && part.ChecksumCRC32C != nil && $s == *part.ChecksumCRC32C && same($d, $data)
 //@ effect[C04:crc64nvme-of-this-part] every CombineCrc64Nvme($acc, $d, $n) needs before base64.StdEncoding.DecodeString($s) -> ($data, $e) where $e == nil && part.ChecksumCRC64NVME != nil && $s == *part.ChecksumCRC64NVME && same($d, $data)
 //@ ensures[C04:etag-carries-the-part-count] err == nil ==> result.ETag != nil && strings.HasSuffix(*result.ETag, "-"+strconv.Itoa(len(parts))+"\"") && strings.HasPrefix(*result.ETag, "\"")
+
+// C35 (BOUNDED stand-ins, never counted as proved; the laws are stated in zz_spec_verif.go over the real code).
+//@ func verifCombineIsConcatenation
+//@ mode nosafety
+//@ bounded 4000
+//@ ensures[C35:combine-is-the-crc-of-the-concatenation] result
+
+//@ func verifCombineIsAssociative
+//@ mode nosafety
+//@ bounded 1500
+//@ ensures[C35:combine-is-associative-for-all-lengths] result
+
+//@ func verifCombineZeroLengthIsIdentity
+//@ mode nosafety
+//@ bounded 2000
+//@ ensures[C35:combine-with-nothing-is-identity] result
+
+//@ func verifStreamingEqualsOneShot
+//@ mode nosafety
+//@ bounded 250
+//@ ensures[C35:streaming-digests-equal-one-shot-digests] result
